@@ -177,7 +177,7 @@ Section XObls.
     match cs with
     | CNil => []
     | CCons n q r =>
-        x_query (if rc then (n, out_query te q, SelfVis) :: te else te) [] q
+        x_query (if recv P rc then (n, out_query te q, SelfVis) :: te else te) [] q
         ++ x_ctes ((n, out_query te q, Normal) :: te) rc r
     end
   with x_setexpr (te : tenv) (sc : scope) (s : setexpr) {struct s} : list xobl :=
